@@ -7,8 +7,9 @@ A case (JSON-able):
                  "token": hex, "nr": None|int, "mid": m, "mc": bool}…],          # by ascending t
    "peers": {"<remote>": "ack"|"ack2"|"rst"}}        # reaction to separate CON responses
   H = {"o": kind, "d": delay ticks, "stubborn": bool, …kind specific…}
-      kinds: ret(code|None, payload hex, nr|None)  rend(cls, msg|None)  exc(exc, k)  nonmsg(val, k)
-             rfail(how, k)  cancel  hang
+      kinds: ret(code|None, payload hex | fill n, nr|None, etag hex?, shared?)  rend(cls, msg|None | fill n)
+             exc(exc, k)  nonmsg(val, k)  rfail(how, k)  cancel  hang
+      ret.shared: every call of the handler returns the SAME Message object (a pre-built response)
 
 Observation (no hooks in aiocoap; wrappers sit on instances created by the harness):
   * `incoming_requests` of the TokenManager is a recording dict: insertion order numbers the
@@ -32,6 +33,11 @@ SECRET = b"SECRET"
 
 def secret(k):
     return "SECRET-%d-hunter2" % k
+
+
+class OutcomeException(BaseException):
+    """not derived from Exception, like the outcome exceptions of test frameworks (pytest.fail/skip) or the
+    cancellation types of other async libraries"""
 
 
 class WeirdError(Exception):
@@ -84,13 +90,17 @@ def _raise_exc(kind, k, aiocoap):
         raise aiocoap.error.UnparsableMessage(text)
     if kind == "NotObservable":
         raise aiocoap.error.NotObservable(text)
+    if kind == "BaseException":
+        raise OutcomeException(text)
+    if kind == "BaseExceptionGroup":
+        raise BaseExceptionGroup(text, [OutcomeException(text), ValueError(text)])
     raise AssertionError("unknown exception kind " + kind)
 
 
 EXC_KINDS = ["ValueError", "KeyError", "RuntimeError", "OSError", "TimeoutError", "ZeroDivisionError",
              "AttributeError", "TypeError", "StopIteration", "StopAsyncIteration", "AssertionError",
              "Weird", "UnicodeDecodeError", "ResponseWrappingError", "LibraryShutdown", "NetworkError",
-             "UnparsableMessage", "NotObservable"]
+             "UnparsableMessage", "NotObservable", "BaseException", "BaseExceptionGroup"]
 NONMSG_KINDS = ["None", "str", "int", "bytes", "dict", "list", "tuple", "float", "object", "type"]
 RFAIL_KINDS = ["raises", "none", "badmsg", "raises_direct", "str", "tuple", "nocode", "reqcode", "badrepr", "unenc"]
 
@@ -160,6 +170,15 @@ def _rfail(kind, k, aiocoap):
         # a diagnostic that is not a str: `self.message.encode` fails inside to_message
         raise E.BadRequest(12345)
     raise AssertionError(kind)
+
+
+def ret_payload(h):
+    """payload of a `ret` outcome: "fill": n stands for n bytes 'x' (large payloads stay small in the case)"""
+    return b"x" * h["fill"] if "fill" in h else bytes.fromhex(h["payload"])
+
+
+def rend_text(h):
+    return "e" * h["fill"] if "fill" in h else h["msg"]
 
 
 def _rend(h, aiocoap):
@@ -263,6 +282,7 @@ class Run:
         self.tasks = []
         self.stops = []          # (tick, id) RST-triggered stop() calls
         self.mid_owner = {}      # (remote, mid) -> id of the response sent with it
+        self.shared_objs = {}    # group name -> [the Message object its handlers hand out]
 
     def note(self, item):
         self.notes.append((self.loop.now_ticks(), item))
@@ -271,6 +291,8 @@ class Run:
     def make_handler(self, h):
         aiocoap = self.aiocoap
         run = self
+        # "shared": "<name>": all handlers of the case naming the same group return ONE Message object
+        shared = self.shared_objs.setdefault(h["shared"], []) if h.get("shared") else []
 
         async def handler(res, request):
             rid = run.id_of_key.get((request.token, request.remote))
@@ -285,13 +307,21 @@ class Run:
                     raise
             o = h["o"]
             if o == "ret":
+                if h.get("shared") and shared:
+                    return shared[0]            # the very object that was returned before
                 kw = {}
                 if h["code"] is not None:
                     kw["code"] = aiocoap.Code(h["code"])
                 if h["nr"] is not None:
                     kw["no_response"] = h["nr"]
-                return aiocoap.Message(payload=bytes.fromhex(h["payload"]), **kw)
+                if h.get("etag") is not None:
+                    kw["etag"] = bytes.fromhex(h["etag"])
+                m = aiocoap.Message(payload=ret_payload(h), **kw)
+                shared.append(m)
+                return m
             if o == "rend":
+                if "fill" in h:
+                    return _rend(dict(h, msg="e" * h["fill"]), aiocoap)
                 return _rend(h, aiocoap)
             if o == "exc":
                 return _raise_exc(h["exc"], h["k"], aiocoap)
